@@ -732,7 +732,7 @@ def gen_conc_cases(rng, quick, stats):
     return out
 
 
-def check_conc(c, o):
+def check_conc(c, o, allow_fsync_failed=False):
     """each call Ok; the file is a concatenation of whole batches, each exactly once; per-thread order kept"""
     bad = []
     if not o or o.startswith("HARNESS-PANIC"):
@@ -742,7 +742,7 @@ def check_conc(c, o):
     m = re.match(r"conc (\d+) ", c.line)
     threads = int(m.group(1))
     nb = len(res)
-    if any(r != "ok" for r in res):
+    if any(r != "ok" and not (allow_fsync_failed and r == "err:corruption-fsync-failed") for r in res):
         bad.append(("append-not-ok", " ".join(sorted(set(res)))))
     d = dict(kv.split("=", 1) for kv in tail.split())
     if d.get("o") != "end":
@@ -849,6 +849,11 @@ def strace_durability(chk, hxbin, rng, quick):
         line = "conc %d wb=%d | %s" % (threads, rng.choice([64, 4096, 2097152]), ";".join(",".join(e.spec() for e in es) for es in batches))
         d = os.path.join(chk.work, "strace%d" % run)
         strace_one(hxbin, line, d, info)
+        if run % 3 == 0:
+            # the same case with one fdatasync made to fail (EIO): nothing that was not covered by a
+            # sync BEFORE the failure may be acknowledged afterwards
+            info["fault_injected_runs"] = info.get("fault_injected_runs", 0) + 1
+            strace_one(hxbin, line, d + "f", info, inject_when=rng.range(1, 4))
     return info
 
 
@@ -868,15 +873,25 @@ def first_put_keys(line):
     return out
 
 
-def strace_one(hxbin, line, d, info):
+def strace_one(hxbin, line, d, info, inject_when=None):
     """one concurrent case under strace; appends (what, detail, line) to info['bad']"""
+    nbad0 = len(info["bad"])
+    try:
+        _strace_one(hxbin, line, d, info, inject_when)
+    finally:
+        if inject_when is not None:
+            info["bad"][nbad0:] = [(w, "%s [inject_when=%d]" % (dt, inject_when), ln) for (w, dt, ln) in info["bad"][nbad0:]]
+
+
+def _strace_one(hxbin, line, d, info, inject_when=None):
     if True:
         keys = first_put_keys(line)
         nb = len(keys)
         os.makedirs(d, exist_ok=True)
         with open(os.path.join(d, "in"), "w") as fh:
             fh.write(line + "\n")
-        cmd = "C12_KEEP=%s strace -f -qq -o %s/trace -e trace=write,pwrite64,writev,fdatasync,fsync,openat %s < %s/in > %s/out" % (d, d, hxbin, d, d)
+        inj = "" if inject_when is None else " -e inject=fdatasync:error=EIO:when=%d" % inject_when
+        cmd = "C12_KEEP=%s strace -f -qq -o %s/trace -e trace=write,pwrite64,writev,fdatasync,fsync,openat%s %s < %s/in > %s/out" % (d, d, inj, hxbin, d, d)
         rc, out = vlib.sh(cmd, timeout=600)
         info["runs"] += 1
         try:
@@ -886,7 +901,7 @@ def strace_one(hxbin, line, d, info):
         except OSError as ex:
             info["bad"].append(("strace-run-failed", str(ex) + out[-300:], line))
             return
-        for what, detail in check_conc(ConcCase(line, "strace"), res):
+        for what, detail in check_conc(ConcCase(line, "strace"), res, allow_fsync_failed=inject_when is not None):
             info["bad"].append((what, detail, line))
         # batch -> end offset of the frame that carries it
         frames = walk_frames(data)
@@ -902,6 +917,7 @@ def strace_one(hxbin, line, d, info):
         sync_start, sync_done = {}, []      # pid -> (event idx, bytes written at start); list of (done idx, covered)
         acks = []               # (event idx of ack start, batch)
         pending = {}            # pid -> unfinished call text
+        sync_failed = False
         for idx, ln in enumerate(trace):
             m = re.match(r"(\d+)\s+(.*)", ln)
             if not m:
@@ -945,9 +961,13 @@ def strace_one(hxbin, line, d, info):
                     acks.append((start_idx, int(mm.group(1))))
             elif call == "fdatasync" and logfd is not None and full.startswith("fdatasync(%s" % logfd):
                 st = sync_start.pop(pid, (start_idx, written)) if mres else (start_idx, written)
-                if retv == 0:
+                if retv == 0 and not sync_failed:
                     sync_done.append((idx, st[1]))
                     info["fdatasyncs"] += 1
+                elif retv != 0:
+                    # after a failed fdatasync the kernel may have dropped the pages: later calls cover nothing
+                    sync_failed = True
+                    info["failed_fdatasyncs"] = info.get("failed_fdatasyncs", 0) + 1
         if logfd is None or ackfd is None:
             info["bad"].append(("strace-parse-failed", "log/ack fd not seen", line))
             return
@@ -960,5 +980,6 @@ def strace_one(hxbin, line, d, info):
             covered = max([cov for (didx, cov) in sync_done if didx < aidx] or [0])
             if covered < need:
                 info["bad"].append(("ack-before-durable", "batch %d ends at %d, fdatasyncs completed before its acknowledgement cover %d bytes" % (b, need, covered), line))
-        if len(acks) != nb:
-            info["bad"].append(("missing-acks", "%d of %d" % (len(acks), nb), line))
+        n_ok = sum(1 for r in res.split(" | ", 1)[0].split() if r == "ok")
+        if len(acks) != n_ok:
+            info["bad"].append(("missing-acks", "%d acknowledgements for %d Ok results" % (len(acks), n_ok), line))
